@@ -172,11 +172,52 @@ func forAllIterations(e *Env, rule string, fn *ssa.Function, overPat string, cfg
 		key := fmt.Sprintf("%s:forall(%s)#%d:%s", name, overPat, i+1, g.Key)
 		ok, w := ctx.EstablishedFrom(fn, l[1], gate.DefaultOutcome(fn), g, map[*ssa.BasicBlock]bool{l[0]: true})
 		if ok {
-			x := e.R.OK(rule, key, e.P.Pos(fn.Pos()), "every iteration passes "+g.Desc)
+			// no early successful exit: the loop may be left from inside the body
+			// only towards failing exits, otherwise later elements go unchecked
+			if early := earlyExit(ctx, fn, l[0], l[1]); early != "" {
+				x := e.R.Fail(rule, key, e.P.Pos(fn.Pos()), "the loop over "+overPat+" can be left before all elements were visited and still succeed: "+early)
+				x.Config = cfg.name
+				continue
+			}
+			x := e.R.OK(rule, key, e.P.Pos(fn.Pos()), "every iteration passes "+g.Desc+"; the loop is left only at its header or towards failure")
 			x.Config = cfg.name
 		} else {
 			x := e.R.Fail(rule, key, e.P.Pos(fn.Pos()), "an iteration of the loop over "+overPat+" can finish without "+g.Desc, w...)
 			x.Config = cfg.name
 		}
 	}
+}
+
+// earlyExit: the iteration region (blocks dominated by the body entry) is left
+// towards a block other than the loop header from which a successful return is
+// reachable, or contains a successful return.
+func earlyExit(ctx *gate.Ctx, fn *ssa.Function, h, bodyEntry *ssa.BasicBlock) string {
+	body := map[*ssa.BasicBlock]bool{}
+	for _, b := range fn.Blocks {
+		if bodyEntry.Dominates(b) {
+			body[b] = true
+		}
+	}
+	o := gate.DefaultOutcome(fn)
+	for _, b := range fn.Blocks {
+		if !body[b] {
+			continue
+		}
+		for _, s := range b.Succs {
+			if body[s] || s == h {
+				continue
+			}
+			if ok, _ := ctx.EstablishedFrom(fn, s, o, gate.Never, nil); !ok {
+				return fmt.Sprintf("block %d leaves the loop to block %d, from which %s is reachable", b.Index, s.Index, o)
+			}
+		}
+		if r, ok := b.Instrs[len(b.Instrs)-1].(*ssa.Return); ok {
+			for _, sr := range ctx.SuccessReturns(fn, o) {
+				if sr == r {
+					return fmt.Sprintf("block %d returns successfully from inside the loop", b.Index)
+				}
+			}
+		}
+	}
+	return ""
 }
